@@ -88,8 +88,10 @@ type world struct {
 	putOcc  map[string]int
 	acPuts  int
 	plan    map[string]string // call key -> fault kind
-	reached []reachedFault
-	cancel  context.CancelFunc // cancels the context of the operation in progress
+	// planCode: status code returned by a call faulted with kind "error".
+	planCode map[string]codes.Code
+	reached  []reachedFault
+	cancel   context.CancelFunc // cancels the context of the operation in progress
 	// ignoreCtx: the back ends stopped looking at contexts (set by a
 	// cancel_ignored fault, for the rest of the operation).
 	ignoreCtx bool
@@ -106,9 +108,10 @@ type reachedFault struct {
 
 func newWorld() *world {
 	return &world{
-		putOcc: map[string]int{},
-		plan:   map[string]string{},
-		delays: map[string]time.Duration{},
+		putOcc:   map[string]int{},
+		plan:     map[string]string{},
+		planCode: map[string]codes.Code{},
+		delays:   map[string]time.Duration{},
 	}
 }
 
@@ -124,8 +127,15 @@ func (w *world) setResult(idx int, res string) {
 	w.mu.Unlock()
 }
 
-// injectedError is what a faulted call returns for fault kind "error".
-var injectedError = status.Error(codes.Unavailable, "injected storage failure")
+// errorCodes are the status codes a failing back-end call may carry
+// (fault kind "error"). Canceled here is a back end answering Canceled
+// without the operation's context being cancelled. The code under test
+// must treat every one of them as a failure.
+var errorCodes = []codes.Code{
+	codes.Unavailable, codes.Internal, codes.DeadlineExceeded, codes.AlreadyExists, codes.Aborted,
+	codes.ResourceExhausted, codes.NotFound, codes.PermissionDenied, codes.Canceled, codes.Unknown,
+	codes.FailedPrecondition, codes.DataLoss,
+}
 
 // fail applies a planned fault. For "cancel" the context of the running
 // operation is cancelled first, as if the caller went away while the call
@@ -144,7 +154,13 @@ func (w *world) fail(ctx context.Context, key, kind string) error {
 		}
 		return status.Error(codes.Canceled, "context canceled")
 	}
-	return injectedError
+	w.mu.Lock()
+	code, ok := w.planCode[key]
+	w.mu.Unlock()
+	if !ok {
+		code = codes.Unavailable
+	}
+	return status.Error(code, "injected storage failure")
 }
 
 // ctxErr is how the back ends look at a context.
